@@ -355,8 +355,17 @@ fn format(
         } else {
             // Check the file directory if the config-path could not be read or not provided
             if config_path.is_none() {
-                let (local_config, config_path) =
-                    load_config(Some(file.parent().unwrap()), Some(options.clone()))?;
+                let local = load_config(Some(file.parent().unwrap()), Some(options.clone()));
+                let (local_config, config_path) = match local {
+                    Ok(local) => local,
+                    Err(e) => {
+                        // A broken configuration is an error of this file only: the remaining
+                        // files are still formatted.
+                        eprintln!("{e}");
+                        session.add_operational_error();
+                        continue;
+                    }
+                };
                 if local_config.verbose() == Verbosity::Verbose {
                     if let Some(path) = config_path {
                         println!(
